@@ -303,7 +303,7 @@ def make_cases(pid, impl, tier, seed):
         lg, lcf = MG.make_lang(impl, L)
         for stream, m in ops_models(impl, lg, lcf, rng, tier):
             out.append({'L': L, 'lg': lg, 'm': m, 'stream': stream})
-    gen = LG.LangGen(rng)
+    gen = LG.LangGen(rng, reuse_fields=0.2)
     for i in range(n):
         L = gen.gen()
         try:
